@@ -268,6 +268,8 @@ pub fn run_history_t(h: &[Ev], restart_after: usize, sig: &str, tail: &[Ev]) -> 
     let last_before = before.last().map(|f| f.id).unwrap();
     // ---- restart -------------------------------------------------------------------------
     r.stop(sig);
+    // reports the restarted server owes for events it finds at the end of the log
+    let mut owed_errors: Vec<(String, &str, Scru128Id)> = vec![];
     if !tail.is_empty() {
         let store = xs::store::Store::new(dir.clone());
         let put = |topic: String, ctx: Scru128Id, body: Option<String>, meta: Option<Value>| -> Frame {
@@ -304,6 +306,17 @@ pub fn run_history_t(h: &[Ev], restart_after: usize, sig: &str, tail: &[Ev]) -> 
                 Ev::CCall { name, ctx } => {
                     let f = put(format!("{}.call", CN[*name]), ctxs[*ctx], None, None);
                     m.old_calls.push(f.id);
+                }
+                Ev::GSpawnBad { name, ctx } => {
+                    if m.gens.contains_key(&(*ctx, *name)) || m.finite.contains_key(&(*ctx, *name)) {
+                        continue;
+                    }
+                    let f = put(format!("{}.spawn", GN[*name]), ctxs[*ctx], None, None);
+                    owed_errors.push((format!("{}.spawn.error", GN[*name]), "source_id", f.id));
+                }
+                Ev::CDefBad { name, ctx } => {
+                    let f = put(format!("{}.define", CN[*name]), ctxs[*ctx], Some("{run: {|frame| ".to_string()), None);
+                    owed_errors.push((format!("{}.error", CN[*name]), "command_id", f.id));
                 }
                 other => panic!("harness: {:?} is not a tail event", other),
             }
@@ -391,6 +404,11 @@ pub fn run_history_t(h: &[Ev], restart_after: usize, sig: &str, tail: &[Ev]) -> 
             }
         }
     }
+    for (topic, key, id) in &owed_errors {
+        if r2.wait(|x| &x.topic == topic && meta_str(x, key) == Some(id.to_string()), 10.0).is_none() {
+            fs.push(F { kind: "c17.tail.silent".into(), msg: format!("{}: the event {} found at the end of the log was never answered by {}", label, id, topic) });
+        }
+    }
     // nothing that was stopped comes back; nothing historical is re-executed
     std::thread::sleep(Duration::from_millis(80));
     let after: Vec<Frame> = r2.all().into_iter().filter(|f| f.id > last_before).collect();
@@ -452,6 +470,10 @@ pub fn tails() -> Vec<(Vec<Ev>, Vec<Ev>)> {
         (vec![GSpawn { name: 0, ctx: 0 }], vec![GSpawn { name: 0, ctx: 1 }]),
         (vec![CDef { name: 0, ctx: 0 }, CDef { name: 0, ctx: 1 }], vec![CDef { name: 0, ctx: 0 }]),
         (vec![CDef { name: 0, ctx: 0 }], vec![CCall { name: 0, ctx: 0 }]),
+        (vec![GSpawn { name: 0, ctx: 0 }], vec![GSpawnBad { name: 1, ctx: 0 }, GSpawn { name: 1, ctx: 1 }]),
+        (vec![CDef { name: 0, ctx: 0 }], vec![CDefBad { name: 0, ctx: 0 }, CDefBad { name: 1, ctx: 1 }]),
+        (vec![HReg { name: 0, ctx: 0 }], vec![HUnreg { name: 0, ctx: 0 }, HReg { name: 0, ctx: 0 }]),
+        (vec![HReg { name: 0, ctx: 0 }], vec![HReg { name: 0, ctx: 0 }, HUnreg { name: 0, ctx: 0 }]),
         (vec![HReg { name: 0, ctx: 0 }, GSpawn { name: 0, ctx: 0 }, CDef { name: 0, ctx: 0 }], vec![HReg { name: 0, ctx: 0 }, CDef { name: 0, ctx: 0 }, CCall { name: 0, ctx: 0 }]),
     ]
 }
